@@ -24,6 +24,7 @@ import (
 	"sort"
 	"strings"
 	"sync"
+	"sync/atomic"
 	"time"
 
 	"github.com/google/uuid"
@@ -867,6 +868,30 @@ func (h *hist) run(rng *rand.Rand, p pairSpec) error {
 		// both users at once; each user's own requests and own observations stay sequential
 		h.tw.Emit("Fork", M{"n": h.o.Conc})
 		var wg sync.WaitGroup
+		// other tenants of the same node are busy meanwhile (creating, reading and deleting collections of their
+		// own, through the same node-database handlers): nothing of it may show in what the two users observe
+		var stop atomic.Bool
+		var bg sync.WaitGroup
+		for k := 0; k < 6; k++ {
+			bg.Add(1)
+			go func(k int) {
+				defer bg.Done()
+				uid := fmt.Sprintf("zz-tenant-%d", k)
+				plan := models.UserPlan{Name: "bg", MaxCollections: 2, MaxCollectionPointCount: 10, MaxPointSize: 1000}
+				for i := 0; !stop.Load(); i++ {
+					col := models.Collection{UserId: uid, Id: fmt.Sprintf("c%d", i%3), Replicas: 1, Timestamp: 1, CreatedAt: 1, UserPlan: plan, IndexSchema: models.IndexSchema{}}
+					h.node.CreateCollection(col)
+					h.node.GetCollection(uid, col.Id)
+					h.node.ListCollections(uid)
+					if i%2 == 1 {
+						if c, err := h.node.GetCollection(uid, col.Id); err == nil {
+							c.UserPlan = plan
+							h.node.DeleteCollection(c)
+						}
+					}
+				}
+			}(k)
+		}
 		for u := 0; u < 2; u++ {
 			wg.Add(1)
 			go func(u int, seed int64) {
@@ -880,6 +905,8 @@ func (h *hist) run(rng *rand.Rand, p pairSpec) error {
 			}(u, rng.Int63())
 		}
 		wg.Wait()
+		stop.Store(true)
+		bg.Wait()
 		h.tw.Emit("Join", M{"obs": []M{h.observe(0), h.observe(1)}})
 		if err := h.unloadStep(); err != nil {
 			return err
